@@ -3,7 +3,7 @@
 //@ source: src/debugger/debugee/tracer.rs
 //@ fn: Tracer::resume
 //@ shim: src/debugger/debugee/tracer.rs :: struct Tracer :: tracee_ctl: TraceeCtl, inject_signal_queue: VecDeque<(Pid, Signal)>
-//@ assume: TraceeCtl::cont_stopped_ex(req, exclude) continues every stopped thread not in `exclude` and delivers req.1 to thread req.0 when that thread is continued, nobody else receives a signal (its body iterates a std HashMap with a closure: not verified); TraceeCtl::cont_stopped delivers nothing. The deliveries are recorded in a ghost sequence `delivered` on the TraceeCtl shim
+//@ assume: (now backed by the Verus unit C10.cont_stopped, which proves the per-thread injection discipline of the real cont_stopped_ex / cont_stopped on a sequence model of the thread table) TraceeCtl::cont_stopped_ex(req, exclude) continues every stopped thread not in `exclude` and delivers req.1 to thread req.0 when that thread is continued, nobody else receives a signal (its body iterates a std HashMap with a closure: not verified); TraceeCtl::cont_stopped delivers nothing. The deliveries are recorded in a ghost sequence `delivered` on the TraceeCtl shim
 //@ assume: waitpid / apply_new_status / group_stop_interrupt deliver no signal; apply_new_status may append at most one (thread, signal) pair at the back of the queue, for a thread that is not already queued (a thread in signal-delivery-stop cannot receive a second signal-stop before it is resumed: kernel semantics); when it reports SignalStop(_, s) it has queued s unless s is SIGINT (proved for the arm itself by the Kani unit C10.push)
 //@ assume: recorded precondition R_distinct: the threads in the queue are pairwise distinct (see above); termination is not claimed (the loop waits for the debuggee)
 //@ notcovered: signals arriving inside single_step, step/stepi resumption paths, multi-thread interleavings, whether the kernel delivers an injected signal exactly once
